@@ -26,6 +26,7 @@ def endSections : Int := 100
 structure Info where
   num : String
   foot : Bool := false
+  cap : Bool := false       -- a `\\caption` (the label of a float attaches to it: `currentlabel`)
   deriving DecidableEq, Repr, Inhabited
 
 instance : Coe String Info := ⟨fun s => { num := s }⟩
@@ -387,6 +388,38 @@ def nodesA (anc : List Tree) : Tree → List (Tree × List Tree)
 def nodesAList (anc : List Tree) : List Tree → List (Tree × List Tree)
   | [] => []
   | t :: ts => nodesA anc t ++ nodesAList anc ts
+end
+
+/-! ### floats: the caption carries the label, the float's template prints the caption's id (`Float.digest`) -/
+
+/- `Node.allChildNodes`: every node below `t`, pre-order, each exactly once -/
+mutual
+def descendants : Tree → List Tree
+  | .node _ _ _ _ kids => descendantsList kids
+def descendantsList : List Tree → List Tree
+  | [] => []
+  | t :: ts => (t :: descendants t) ++ descendantsList ts
+end
+
+def isCaption (t : Tree) : Bool := match t with | .node _ _ info _ _ => info.cap
+
+/-- `captions = [x for x in self.allChildNodes if isinstance(x, Caption)]`;
+    `if len(captions) == 1: self.title = captions[0]` -/
+def floatTitle (t : Tree) : Option Tree :=
+  match (descendants t).filter isCaption with
+  | [c] => some c
+  | _ => none
+
+/-- the identifier the float templates print (`id="{{ obj.title.id }}"`) -/
+def floatId (t : Tree) : Option Id := (floatTitle t).bind Tree.id
+
+/- number of caption nodes below a node, counted on the tree itself -/
+mutual
+def countCaps : Tree → Nat
+  | .node _ _ _ _ kids => countCapsList kids
+def countCapsList : List Tree → Nat
+  | [] => 0
+  | t :: ts => (if isCaption t then 1 else 0) + countCaps t + countCapsList ts
 end
 
 end PlasVerif.Model.Urls
